@@ -169,6 +169,8 @@ package litonlylzma
 
 //@ func encodeXz
 //@   prop C17
+//@   assert@call append#2 [rawchunk] 1 <= len(srcChunk) && len(srcChunk) <= 0x10000
+//@   assert@call append#4 [lzmachunk] 1 <= len(srcChunk) && len(srcChunk) <= 0x10000 && len(rawLZMA) <= 0x10000
 //@   ensures retErr == nil && len(appendedDst) >= len(dst) + 24
 //@   modifies mem(dst)
 //@   loop 1 invariant len(dst) >= dstLen0 + 12 && dstLen0 == old(len(dst)) + 12 && (base(dst) == old(base(dst)) || fresh(base(dst))) && len(remaining) <= len(src) && (isnil(base(rawLZMA)) || fresh(base(rawLZMA)))
